@@ -77,4 +77,10 @@ theorem title_full_false : ¬ TitleFull := by
   revert this
   decide +kernel
 
+/-- known finding `C11/options/RDFRead/mol-record/remap` (and `…/ignore`): the `$MFMT` branch of `RDFRead.read_structure`
+    calls `postprocess_parsed_molecule(tmp)` without the reader's `remap` / `ignore` -/
+theorem options_reach_full_false : ¬ ChythonModel.Props.C11.OptionsReachFull := by
+  unfold ChythonModel.Props.C11.OptionsReachFull
+  decide +kernel
+
 end ChythonModel.Findings.C11
